@@ -71,15 +71,30 @@ def run(ctx):
         m = np.array([[1 if ctx.rng.random() < ctx.rng.choice([0.3, 0.5, 0.7]) else 0 for _ in range(b)] for _ in range(a)])
         if swappable(m):
             mats.append(m)
+    # tall sparse matrices with one or two swappable row pairs: hundreds of failed draws before each swap
+    for _ in range(ctx.n(6, 40)):
+        a = ctx.rng.randint(12, 40); b = ctx.rng.randint(3, 6)
+        m = np.zeros((a, b), dtype=int)
+        fill = ctx.rng.choice([0, 1])          # the other rows are all-0 or all-1: never swappable with anything
+        m[:, :] = fill
+        i, j = ctx.rng.sample(range(a), 2); c0, c1 = ctx.rng.sample(range(b), 2)
+        m[i, :] = 0; m[j, :] = 0; m[i, c0] = 1; m[j, c1] = 1
+        if ctx.rng.random() < 0.5:
+            m[i, (c0 + 1) % b if (c0 + 1) % b != c1 else (c0 + 2) % b] = 1
+        mats.append(m)
     for m in mats:
-        for k in ([0, 1, 2, 3] if m.size <= 9 else [ctx.rng.randint(0, 6)]):
+        for k in ([0, 1, 2, 3] if m.size <= 9 else [ctx.rng.randint(0, 6) if m.shape[0] < 12 else ctx.rng.randint(1, 3)]):
             seedv = ctx.rng.randint(0, 10**6)
             kind = ctx.rng.choice(["sha", "sha", "rs", "int"])
             g = RecSHA256(seedv) if kind in ("sha", "int") else RecRandomState(seedv)
-            mm = m.astype(float) if ctx.rng.random() < 0.3 else m.copy()
+            dt = ctx.rng.choice([None, None, float, np.int8, np.uint8, np.int32, bool])
+            mm = m.copy() if dt is None else m.astype(dt)
+            if ctx.rng.random() < 0.2:
+                mm = np.asfortranarray(mm)
+            ctx.count("dtype-" + mm.dtype.name)
             snap = mm.copy()
             st0 = np.random.get_state()[1].copy()
-            r = guarded(utils.permute_incidence_fixed_sums, mm, k, g)
+            r = guarded(utils.permute_incidence_fixed_sums, mm, k, g, secs=60)
             det = {"call": "permute_incidence_fixed_sums", "matrix": m.tolist(), "k": k, "seed": seedv, "generator": kind}
             ctx.case((tuple(map(tuple, m.tolist())), k, seedv, kind), k >= 1, det if k >= 1 else None)
             ctx.count(f"k={k}"); ctx.count("gen-" + kind); ctx.count(f"shape={m.shape[0]}x{m.shape[1]}")
